@@ -24,10 +24,10 @@ N = secp.N
 IDX = [0, 1, HARD - 1, HARD, HARD + 1, 2 ** 32 - 1]
 
 INVALID_KINDS = {
-    "master": ["IL=0", "IL=n", "IL=n+1", "IL=2^256-1"],
-    "prv": ["IL=n", "IL=n+1", "IL=2^256-1", "IL=n-kpar"],
-    "pub": ["IL=n", "IL=n+1", "IL=2^256-1", "IL=n-kpar"],
-    "bip85": ["S=0", "S=n", "S=2^256-1"],
+    "master": ["IL=0", "IL=n", "IL=n+1", "IL=2^256-1", "IL=n+r"],
+    "prv": ["IL=n", "IL=n+1", "IL=2^256-1", "IL=n-kpar", "IL=n+r"],
+    "pub": ["IL=n", "IL=n+1", "IL=2^256-1", "IL=n-kpar", "IL=n+r"],
+    "bip85": ["S=0", "S=n", "S=2^256-1", "S=n+r"],
 }
 VALID_KINDS = {
     "master": ["IL=1", "IL=n-1", "IL=lz", "IR=00", "IR=ff"],
@@ -36,7 +36,7 @@ VALID_KINDS = {
     "bip85": ["S=1", "S=n-1", "S=lz"],
 }
 MASTER_VIAS = ["master_key", "master_key", "from_bip39_seed_hex", "from_bip39_seed_bytes", "paper_from_seed_hex"]
-SCALAR_CLASSES = ["one", "two", "n-1", "n-2", "pow2", "lz", "random"]
+SCALAR_CLASSES = ["one", "two", "n-1", "n-2", "pow2", "lz", "trail0", "hi80", "midzero", "random"]
 
 
 def gen_scalar(rng, cls):
@@ -53,6 +53,17 @@ def gen_scalar(rng, cls):
     if cls == "lz":
         z = rng.randrange(1, 32)
         return rng.randrange(1, 1 << (8 * (32 - z)))
+    if cls == "trail0":
+        z = rng.randrange(1, 16)
+        return (rng.randrange(1, 1 << (8 * (32 - z))) << (8 * z)) % N or 1
+    if cls == "hi80":
+        return (0x80 << 248) | rng.getrandbits(248)
+    if cls == "midzero":
+        b = bytearray(rng.randbytes(32))
+        b[0] = (b[0] & 0x7f) | 1
+        for i_ in rng.sample(range(1, 31), rng.randint(1, 6)):
+            b[i_] = 0
+        return int.from_bytes(bytes(b), "big") % N or 1
     return rng.randrange(1, N)
 
 
@@ -70,6 +81,10 @@ def planted_output(kind, real, kpar, aux):
         il = b32(N)
     elif kind == "IL=n+1":
         il = b32(N + 1)
+    elif kind in ("IL=n+r", "S=n+r"):
+        # somewhere else in [n, 2^256): low band n + r (r < 2^32) or anywhere above n, chosen by aux
+        span = (1 << 256) - N
+        il = b32(N + (aux % (1 << 32) if aux % 2 else aux % span))
     elif kind in ("IL=2^256-1", "S=2^256-1"):
         il = b"\xff" * 32
     elif kind in ("IL=n-1", "S=n-1"):
@@ -105,7 +120,19 @@ def _levels_for(op):
         return [83696968 + HARD, 2 + HARD, op["i"] + HARD]
     if op["op"] == "bip85_xprv":
         return [83696968 + HARD, 32 + HARD, op["i"] + HARD]
+    if op["op"] == "bip85_mnemonic":
+        return [83696968 + HARD, 39 + HARD, HARD, op["a"] + HARD, op["i"] + HARD]
+    if op["op"] == "bip85_hex":
+        return [83696968 + HARD, 128169 + HARD, op["a"] + HARD, op["i"] + HARD]
+    if op["op"] == "bip85_pwd":
+        return [83696968 + HARD, 707764 + HARD, op["a"] + HARD, op["i"] + HARD]
+    if op["op"] in ("generate_children", "addr_gen"):
+        return list(op["il"])          # SIBLINGS of one parent, not a chain
     return []
+
+
+SIBLING_OPS = ("generate_children", "addr_gen")
+BIP85_FREE = ("bip85_mnemonic", "bip85_hex", "bip85_pwd")   # final HMAC output has no validity constraint
 
 
 def site_of(op, ordinal):
@@ -113,7 +140,7 @@ def site_of(op, ordinal):
     lv = _levels_for(op)
     if k == "master":
         return "master"
-    if k.startswith("bip85") and ordinal == len(lv):
+    if k in ("bip85_wif", "bip85_xprv") and ordinal == len(lv):
         return k.replace("_", "-")
     if k.startswith("pub"):
         return "pub-normal"
@@ -131,7 +158,7 @@ def kind_family(site):
 
 
 def position_of(op, ordinal):
-    n = len(_levels_for(op)) + (1 if op["op"].startswith("bip85") else 0)
+    n = len(_levels_for(op)) + (1 if op["op"] in ("bip85_wif", "bip85_xprv") else 0)
     if op["op"] == "master" or n == 1:
         return "only"
     if ordinal == 0:
@@ -161,11 +188,12 @@ def enumerate_cells(invalid):
 
 
 def _rand_index(rng, hardened=None):
+    band = rng.choice([1 << 8, 1 << 16, 1 << 24, (1 << 16) - 1, 1000, 65537, 0x00FF00FF & (HARD - 1)])
     if hardened is True:
-        return rng.choice([HARD, HARD + 1, 2 ** 32 - 1, HARD + rng.randrange(HARD)])
+        return rng.choice([HARD, HARD + 1, 2 ** 32 - 1, HARD + rng.randrange(HARD), HARD + band])
     if hardened is False:
-        return rng.choice([0, 1, HARD - 1, rng.randrange(HARD)])
-    return rng.choice(IDX + [rng.randrange(2 ** 32)])
+        return rng.choice([0, 1, HARD - 1, rng.randrange(HARD), band])
+    return rng.choice(IDX + [rng.randrange(2 ** 32), band, HARD + band])
 
 
 def _op_for_cell(rng, cell, out):
@@ -205,7 +233,9 @@ def gen_root(rng):
     testnet = rng.random() < 0.3
     return {"kind": "xprv", "scalar_class": cls, "k": "%064x" % gen_scalar(rng, cls),
             "depth": rng.choice([0, 1, 3, 127, 128, 250, 254, rng.randrange(255)]),
-            "pfp": rng.randbytes(4).hex(), "index": _rand_index(rng), "chain": rng.randbytes(32).hex(),
+            "pfp": rng.randbytes(4).hex(), "index": _rand_index(rng),
+            "chain": rng.choice([rng.randbytes(32), rng.randbytes(32), b"\x00" * 32, b"\xff" * 32,
+                                 b"\x00" * 4 + rng.randbytes(28), rng.randbytes(28) + b"\x00" * 4]).hex(),
             "testnet": testnet}
 
 
@@ -236,7 +266,7 @@ def gen_plan(prop, seed, tier, idx):
         """Keep every derived node within BIP32's one-byte depth (parents 0..254)."""
         if "h" not in op:
             return op
-        lv = len(_levels_for(op)) if not op["op"].startswith("bip85") else 3
+        lv = 1 if op["op"] in SIBLING_OPS else len(_levels_for(op))
         if hdepth[op["h"]] + lv > 255:
             ok = [h for h in handles if hdepth[h] + lv <= 255]
             if ok:
@@ -261,7 +291,8 @@ def gen_plan(prop, seed, tier, idx):
             op = {"op": "ckd", "h": h, "i": _rand_index(rng), "out": out}
         elif x < 0.55:
             op = {"op": rng.choice(["derive_path", "by_path"]), "h": h,
-                  "il": [_rand_index(rng) for _ in range(rng.randint(1, 5) if rng.random() < 0.85 else rng.randint(6, 9))],
+                  "il": [_rand_index(rng) for _ in range(rng.randint(1, 5) if rng.random() < 0.85 else
+                                                        rng.randint(6, 9) if rng.random() < 0.8 else rng.randint(10, 14))],
                   "out": out}
             if len(op["il"]) > 5:
                 op["op"] = "derive_path"       # by_path strings are honoured for five levels only (C17)
@@ -270,21 +301,37 @@ def gen_plan(prop, seed, tier, idx):
         elif x < 0.75:
             op = {"op": "pub_derive_path", "h": h,
                   "il": [_rand_index(rng, hardened=False) for _ in range(rng.randint(1, 4))], "out": out}
-        elif x < 0.85:
+        elif x < 0.80:
             op = {"op": rng.choice(["bip85_wif", "bip85_xprv"]), "h": h, "i": rng.choice([0, 1, 7, HARD - 1])}
+        elif x < 0.84:
+            app = rng.choice(["bip85_mnemonic", "bip85_hex", "bip85_pwd"])
+            op = {"op": app, "h": h, "i": rng.choice([0, 1, 7]),
+                  "a": {"bip85_mnemonic": rng.choice([12, 18, 24]), "bip85_hex": rng.choice([16, 32, 64]),
+                        "bip85_pwd": rng.choice([20, 21, 86])}[app]}
+        elif x < 0.88:
+            a_ = rng.choice([0, 5, HARD - 2, HARD, 2 ** 32 - 3])
+            op = {"op": "generate_children", "h": h, "il": [a_, a_ + 1][:rng.randint(1, 2)]}
+            if op["il"][-1] >= 2 ** 32:
+                op["il"] = [0, 1]
+        elif x < 0.90:
+            op = {"op": "addr_gen", "h": h, "il": [0, 1][:rng.randint(1, 2)]}
         else:
             op = {"op": "master", "seed_hex": rng.randbytes(rng.choice([16, 32, 64])).hex(),
                   "testnet": rng.random() < 0.5, "via": rng.choice(MASTER_VIAS), "out": out}
         op["faults"] = {}
         op = fit(op)
+        if op["op"] in ("ckd", "derive_path", "by_path") and rng.random() < 0.3:
+            op["temp_parent"] = True
         if config == "planted" and cell is None and rng.random() < 0.5:
-            n_calls = len(_levels_for(op)) + (1 if op["op"].startswith("bip85") else 0) + (1 if op["op"] == "master" else 0)
+            n_calls = len(_levels_for(op)) + (1 if op["op"] in ("bip85_wif", "bip85_xprv") else 0) + (1 if op["op"] == "master" else 0)
             o = rng.randrange(n_calls)
             fam = kind_family(site_of(op, o))
             op["faults"][str(o)] = [rng.choice(kinds[fam]), gen_scalar(rng, "lz")]
-        if "out" in op and not op["op"].startswith("pub") and not (invalid and op["faults"]):
+        if "out" in op and not op["op"].startswith("pub") and not (invalid and op["faults"]) and not op.get("temp_parent"):
             handles.append(op["out"])
             hdepth[op["out"]] = 0 if op["op"] == "master" else hdepth[op["h"]] + len(_levels_for(op))
+        if op["op"] in SIBLING_OPS:
+            op.pop("out", None)
         ops.append(op)
     if cell is not None:
         op = _op_for_cell(rng, cell, "cell")
@@ -322,20 +369,27 @@ def _sut_root(root, ref):
 
 def _canon(n, prv=True):
     d = {"chain_code": bytes(n.chain_code).hex(), "depth": n.depth, "index": n.index,
-         "pfp": bytes(n.parent_fingerprint).hex(), "xpub": n.extended_public_key()}
+         "pfp": bytes(n.parent_fingerprint).hex(), "xpub": n.extended_public_key(),
+         "ser_pub": bytes(n.serialize_public()).hex()}
     if prv:
         d["key"] = bytes(n.private_key).hex()
         d["xprv"] = n.extended_private_key()
+        d["ser_prv"] = bytes(n.serialize_private()).hex()
+        d["eq_reparsed"] = bool(n == type(n).parse(d["xprv"], testnet=n.testnet))
     else:
         d["key"] = bytes(n.key).hex()
+        d["eq_reparsed"] = bool(n == type(n).parse(d["xpub"], testnet=n.testnet))
     return d
 
 
 def _ref_canon(r, prv=True):
-    d = {"chain_code": r.c.hex(), "depth": r.depth, "index": r.index, "pfp": r.pfp.hex(), "xpub": r.xpub()}
+    from sim.ref.codecs import b58check_decode
+    d = {"chain_code": r.c.hex(), "depth": r.depth, "index": r.index, "pfp": r.pfp.hex(), "xpub": r.xpub(),
+         "ser_pub": b58check_decode(r.xpub()).hex(), "eq_reparsed": True}
     if prv:
         d["key"] = "%064x" % r.k
         d["xprv"] = r.xprv()
+        d["ser_prv"] = b58check_decode(r.xprv()).hex()
     else:
         d["key"] = r.sec.hex()
     return d
@@ -398,6 +452,7 @@ class _Lockstep:
             if not rec["layout_ok"]:
                 self.layout_bad.append({"ordinal": o, "index": i, "key": key.hex(), "msg": msg.hex(),
                                         "want_key": exp_key.hex(), "want_msg": exp_msg.hex()})
+            sibling = op["op"] in SIBLING_OPS
             try:
                 if self.pub:
                     child = rb.ckd_pub(par.neuter(), i, prf=lambda k_, m_: outp)
@@ -408,13 +463,18 @@ class _Lockstep:
                                            child.testnet)
                 else:
                     child = rb.ckd_priv(par, i, prf=lambda k_, m_: outp)
-                self.cur = child
+                self.cur = par if sibling else child
                 self.refs.append(child)
             except rb.Invalid as e:
                 self.invalid_at = (o, str(e))
                 self.cur = None
             self.calls.append(rec)
             return outp
+        # ---- BIP85 final HMAC of applications whose output is not a key: nothing to plant, nothing to judge
+        if op["op"] in BIP85_FREE and o == len(self.levels):
+            rec["site"] = "bip85-free"
+            self.calls.append(rec)
+            return real_from_lib_args
         # ---- BIP85 final HMAC
         if op["op"].startswith("bip85") and o == len(self.levels):
             rec["site"] = op["op"].replace("_", "-")
@@ -473,6 +533,14 @@ def _run_child(plan):
         else:
             sut_par, ref_par = None, None
         ls = _Lockstep(op, ref_par, pub)
+        if op.get("temp_parent") and kind in ("ckd", "derive_path", "by_path") and ref_par is not None:
+            # the caller works on a TEMPORARY parent (re-parsed from the parent's own extended key) and drops it:
+            # results must not need the caller to keep the parent object alive
+            import gc
+            seam.handler = None
+            tmp_par = PrvKeyNode.parse(ref_par.xprv(), testnet=ref_par.testnet)
+            sut_par = tmp_par
+            del tmp_par
         seam.handler = ls
         result = None
         exc = None
@@ -511,6 +579,21 @@ def _run_child(plan):
                 result = BIP85DeterministicEntropy(master_node=sut_par, testnet=ref_par.testnet).wif(index=op["i"])
             elif kind == "bip85_xprv":
                 result = BIP85DeterministicEntropy(master_node=sut_par, testnet=ref_par.testnet).xprv(index=op["i"])
+            elif kind == "bip85_mnemonic":
+                result = BIP85DeterministicEntropy(master_node=sut_par, testnet=ref_par.testnet).bip39_mnemonic(
+                    word_count=op["a"], index=op["i"])
+            elif kind == "bip85_hex":
+                result = BIP85DeterministicEntropy(master_node=sut_par, testnet=ref_par.testnet).hex(
+                    num_bytes=op["a"], index=op["i"])
+            elif kind == "bip85_pwd":
+                result = BIP85DeterministicEntropy(master_node=sut_par, testnet=ref_par.testnet).pwd(
+                    pwd_len=op["a"], index=op["i"])
+            elif kind == "generate_children":
+                result = sut_par.generate_children(interval=(op["il"][0], op["il"][-1] + 1))
+            elif kind == "addr_gen":
+                w = BaseWallet(master=sut_par, testnet=ref_par.testnet)
+                g_ = w.address_generator(sut_par)
+                result = [next(g_) for _ in op["il"]]
             else:
                 raise core.HarnessError("unknown op %r" % kind)
         except core.HarnessError:
@@ -519,6 +602,10 @@ def _run_child(plan):
             exc = type(e).__name__
         finally:
             seam.handler = None
+        if op.get("temp_parent"):
+            import gc
+            sut_par = None
+            gc.collect()
         # ---- observe (no PRF substitution while observing)
         rec = {"j": j, "op": kind, "exc": exc, "calls": ls.calls, "invalid_at": ls.invalid_at,
                "layout_bad": ls.layout_bad}
@@ -529,7 +616,18 @@ def _run_child(plan):
                 fired[c["fault"]] = fired.get(c["fault"], 0) + 1
         if exc is None:
             try:
-                if kind.startswith("bip85"):
+                if kind in SIBLING_OPS:
+                    if kind == "generate_children":
+                        rec["result"] = [_canon(x, prv=True) for x in result]
+                        if ls.invalid_at is None:
+                            rec["expected"] = [_ref_canon(r, prv=True) for r in ls.refs]
+                    else:
+                        rec["result"] = [list(x) for x in result]
+                        rec["expected"] = rec["result"]          # addresses are C05; only raise/return is judged
+                elif kind in BIP85_FREE:
+                    rec["result"] = result
+                    rec["expected"] = result                     # values are C12; only raise/return is judged
+                elif kind.startswith("bip85"):
                     rec["result"] = result
                     if ls.final is not None and ls.invalid_at is None:
                         if kind == "bip85_wif":
@@ -549,8 +647,14 @@ def _run_child(plan):
                     rec["result"] = [_canon(x, prv=not pub) for x in chain]
                     if ls.invalid_at is None:
                         rec["expected"] = [_ref_canon(r, prv=not pub) for r in ls.refs]
-                        if "out" in op and not pub and ls.refs:
+                        if "out" in op and not pub and ls.refs and not op.get("temp_parent"):
                             handles[op["out"]] = (result, ls.refs[-1])
+                    if op.get("temp_parent"):
+                        # judge the node the caller actually holds (the last one); intermediate nodes are reachable
+                        # only through it
+                        rec["result"] = rec["result"][-1:]
+                        if "expected" in rec:
+                            rec["expected"] = rec["expected"][-1:]
             except Exception as e:
                 rec["observe_exc"] = type(e).__name__
         records.append(rec)
@@ -639,6 +743,10 @@ class DerivationSim(Simulator):
             if pub:
                 if r["exc"] is not None or r.get("result") != r.get("expected") or r["layout_bad"]:
                     oos += 1            # public-side value agreement is C02 (not claimed)
+                continue
+            if r["op"] in BIP85_FREE or r["op"] == "addr_gen":
+                if r["exc"] is not None:
+                    oos += 1            # BIP85 values are C12, addresses C05 (not claimed); C18 judges the raise side
                 continue
             if r["layout_bad"]:
                 add("C01/prf-input-layout",
